@@ -35,39 +35,46 @@ def _literal_dict_names(fn_node):
     return out
 
 
+def builder_not_followed(graph):
+    """kinds -> count of the give-ups the term-graph builder recorded for one function (terms.FuncGraph.not_followed)"""
+    c = collections.Counter()
+    for kind, _line in getattr(graph, 'not_followed', None) or []:
+        c[kind] += 1
+    return c
+
+
 def opaque_constructs(fn_node):
     """Counter of construct kinds (see module docstring) in one function, nested functions included"""
     c = collections.Counter()
-    dict_names = _literal_dict_names(fn_node)
     nested = {}
     for n in ast.walk(fn_node):
         if isinstance(n, (ast.FunctionDef, ast.AsyncFunctionDef)) and n is not fn_node:
             nested.setdefault(n.name, []).append(n)
+    # local functions that write into arrays / containers of the enclosing function ...
+    mutating = set()
     for name, defs in nested.items():
-        if len(defs) > 1:
-            c['function defined on alternative paths'] += 1
-    called_directly = set()
+        for d in defs:
+            local = {a.arg for a in d.args.args + d.args.posonlyargs + d.args.kwonlyargs} | ({d.args.vararg.arg} if d.args.vararg else set()) | \
+                    {x.id for x in ast.walk(d) if isinstance(x, ast.Name) and isinstance(x.ctx, ast.Store)}
+            for x in ast.walk(d):
+                tgt = None
+                if isinstance(x, ast.Subscript) and isinstance(x.ctx, ast.Store):
+                    tgt = x.value
+                elif isinstance(x, ast.AugAssign):
+                    tgt = x.target.value if isinstance(x.target, ast.Subscript) else x.target
+                while isinstance(tgt, (ast.Subscript, ast.Attribute)):
+                    tgt = tgt.value
+                if isinstance(tgt, ast.Name) and tgt.id not in local:
+                    mutating.add(name)
+    # ... and are called from inside a comprehension / generator: the updates happen once per element, which the graph of a comprehension does not carry
     for n in ast.walk(fn_node):
-        if isinstance(n, ast.Call) and isinstance(n.func, ast.Name):
-            called_directly.add(id(n.func))
+        if isinstance(n, (ast.ListComp, ast.SetComp, ast.DictComp, ast.GeneratorExp)):
+            for x in ast.walk(n):
+                if isinstance(x, ast.Call) and isinstance(x.func, ast.Name) and x.func.id in mutating:
+                    c['local function that updates captured arrays, called per element of a comprehension'] += 1
     for n in ast.walk(fn_node):
-        if isinstance(n, ast.Name) and isinstance(n.ctx, ast.Load) and n.id in nested and id(n) not in called_directly:
-            c['local function used as a value'] += 1
-        elif isinstance(n, ast.Subscript) and isinstance(n.ctx, (ast.Store, ast.Del)) and isinstance(n.value, ast.Name) and \
-                isinstance(n.slice, ast.Constant) and isinstance(n.slice.value, str):
-            c['state kept in a dict that is written by key'] += 1
-        elif isinstance(n, ast.Call):
-            if isinstance(n.func, ast.Subscript):
-                c['call of a function selected from a table'] += 1
-            if isinstance(n.func, ast.Call) and not (isinstance(n.func.func, ast.Attribute) and n.func.func.attr in ('get',)):
-                c['call of a function returned by a call'] += 1
-            for k in n.keywords:
-                if k.arg is None and not (isinstance(k.value, ast.Name) and k.value.id in dict_names) and not isinstance(k.value, ast.Dict):
-                    c['keyword arguments that are not literal at the call'] += 1
-            for a in n.args:
-                if isinstance(a, ast.Starred) and not isinstance(a.value, (ast.Tuple, ast.List, ast.Name, ast.Attribute, ast.Subscript)):
-                    c['positional arguments computed at the call'] += 1
-            if isinstance(n.func, ast.Name) and n.func.id in ('map', 'filter', 'getattr', 'setattr', 'eval', 'exec', 'globals', 'locals', 'vars') and \
+        if isinstance(n, ast.Call):
+            if isinstance(n.func, ast.Name) and n.func.id in ('getattr', 'setattr', 'eval', 'exec', 'globals', 'locals', 'vars') and \
                     not (n.func.id == 'getattr' and len(n.args) >= 2 and isinstance(n.args[1], ast.Constant)):
                 c[f'{n.func.id}()'] += 1
         elif isinstance(n, ast.ClassDef):
@@ -91,7 +98,13 @@ def outer_functions(mod_tree):
     return out
 
 
-def new_opaque_constructs(prog, relpath, line, known_funcs, depth=0, seen=None):
+def all_counts(node, graph):
+    c = opaque_constructs(node)
+    c.update(builder_not_followed(graph))
+    return c
+
+
+def new_opaque_constructs(prog, relpath, line, known_funcs, depth=0, seen=None, graphs=None):
     """constructs (kind -> count) that the function containing relpath:line has beyond its reference version; helpers that the reference tree does not have
     and that the function refers to are included"""
     seen = seen if seen is not None else set()
@@ -102,15 +115,21 @@ def new_opaque_constructs(prog, relpath, line, known_funcs, depth=0, seen=None):
     if not hit:
         return {}
     _a, _b, q, node = hit[0]
-    return _new_for(prog, mod, q, node, known_funcs, seen)
+    return _new_for(prog, mod, q, node, known_funcs, seen, graphs)
 
 
-def _new_for(prog, mod, q, node, known_funcs, seen):
+def _new_for(prog, mod, q, node, known_funcs, seen, graphs=None):
     key = f'{mod.name}::{q}'
     if key in seen:
         return {}
     seen.add(key)
-    cur = opaque_constructs(node)
+    graph = None
+    if graphs is not None:
+        try:
+            graph = graphs.get(prog.func(key))
+        except Exception:
+            graph = None
+    cur = all_counts(node, graph)
     ref = reference_counts().get(key, {}) if key in known_funcs else {}
     out = {k: v - ref.get(k, 0) for k, v in cur.items() if v - ref.get(k, 0) > 0}
     # helpers introduced later, referred to by name from this function
@@ -121,6 +140,6 @@ def _new_for(prog, mod, q, node, known_funcs, seen):
             continue
         for qq, (mm, nn) in funcs.items():
             if qq.split('.')[-1] == name and f'{mm.name}::{qq}' not in known_funcs and nn is not node:
-                for k, v in _new_for(prog, mm, qq, nn, known_funcs, seen).items():
+                for k, v in _new_for(prog, mm, qq, nn, known_funcs, seen, graphs).items():
                     out[k] = out.get(k, 0) + v
     return out
